@@ -56,6 +56,7 @@ func c01Oracle(pc progCase, r *Result) {
 	o := RunVM(a, defaultOpts())
 	r.Trans(3)
 	r.Outcome(o.Class)
+	r.Obs(o)
 	r.Distinct(o.Key())
 	r.Sample(pc.P.Text)
 	if class, detail := compareRef(ref, o, true); class != "" {
